@@ -171,7 +171,7 @@ pub fn spec(prop: &str) -> Option<CheckSpec> {
             level: "exploration",
             rule: "What the simulator controls here is the environment of native code: where every caller-visible buffer lives and what surrounds a call. Kernel family: direct calls of every kernel of every flavour the CPU can run - unix assembly (ca_), C intrinsics and portable C (ci_), Windows-GNU assembly assembled for ELF and called through a Win64 trampoline (win_), and the crate's own kernels through Platform - with arguments inside the documented domain (num_inputs 0..2*degree+1, 1 or 16 blocks per input, counters near 2^32 and 2^64, any flag bytes, 1..33 XOF blocks); each buffer (inputs, input-pointer array, key/cv, block, out) sits flush before or after a PROT_NONE page or at a misaligned interior position, canaries fill the rest of its pages; assembly and C kernels are entered through a trampoline that plants per-call pseudo-random sentinels in the callee-saved registers of the ABI (SysV: rbx rbp r12-r15; Win64 additionally rdi rsi xmm6-xmm15) and compares them, rsp and DF afterwards. API families: the C06 histories and Rust reader/XOF histories with guard-placed inputs, outputs and (C) hasher objects. Monitors: SIGSEGV/SIGBUS/SIGILL (reported through a crash record, replayed in a child process), canaries, register sentinels. distinct_nontrivial = distinct (kernel x input count x block count x placement) shapes + API state shapes.",
             families: vec![
-                Family { name: "c07-kernels", gen: gen::c07_kernels, quick: 60_000, thorough: 3_000_000, judge: Judge::Exec },
+                Family { name: "c07-kernels", gen: gen::c07_kernels, quick: 60_000, thorough: 1_500_000, judge: Judge::Exec },
                 Family { name: "c07-c-api", gen: gen::c07_capi, quick: 20_000, thorough: 600_000, judge: Judge::Exec },
                 Family { name: "c07-rust-api", gen: gen::c07_rustapi, quick: 20_000, thorough: 600_000, judge: Judge::Exec },
             ],
